@@ -1,6 +1,8 @@
 package main
 
 import (
+	"crypto/sha256"
+	"encoding/hex"
 	"fmt"
 	"sort"
 	"strconv"
@@ -40,6 +42,30 @@ type World struct {
 	committedRoots     []RootObs
 	commitKnown        bool
 	pendingColdRefresh bool
+	// what the caller knows after a crash: the roots it held at the last successful commit
+	savedRoots []savedRoot
+	NameOfVid  map[int]string // canonical value id -> handle name given by the history
+}
+
+type savedRoot struct {
+	Name string
+	Kind string
+	ID   atree.SlabID
+	Dig  *TableDigesterBuilder
+}
+
+func (w *World) rememberRoots() {
+	w.savedRoots = nil
+	for _, name := range w.Roots {
+		h := w.H[name]
+		sr := savedRoot{Name: name, Kind: h.Kind, Dig: h.Dig}
+		if h.Kind == "A" {
+			sr.ID = h.Arr.SlabID()
+		} else {
+			sr.ID = h.Map.SlabID()
+		}
+		w.savedRoots = append(w.savedRoots, sr)
+	}
 }
 
 func NewWorld(T uint32) *World {
@@ -53,9 +79,12 @@ func NewWorld(T uint32) *World {
 // ---------------------------------------------------------------- values
 
 type ElemSpec struct {
-	ID int `json:"id"`
-	Sz int `json:"sz"`
-	W  int `json:"w"`
+	ID  int    `json:"id"`
+	Sz  int    `json:"sz"`
+	W   int    `json:"w"`
+	New string `json:"new"` // "A" | "M": a new empty container is created and used as the value
+	Ref string `json:"ref"` // name of an existing (detached) container handle to attach
+	Vid int    `json:"vid"` // filled in by the harness: canonical value id of the container used as the value
 }
 
 // strLenForSize returns the string length whose CBOR text encoding takes sz bytes.
@@ -118,7 +147,7 @@ func (w *World) peek(id atree.SlabID) atree.Slab {
 	if !ok {
 		return nil
 	}
-	s, err := atree.DecodeSlab(id, b, decMode(), testutils.DecodeStorable, testutils.DecodeTypeInfo)
+	s, err := atree.DecodeSlab(id, b, decMode(), testutils.DecodeStorable, decodeTypeInfo)
 	if err != nil {
 		panic(fmt.Sprintf("peek: register %s does not decode: %v", id, err))
 	}
@@ -159,11 +188,12 @@ func (w *World) cid(id atree.SlabID) int {
 // ---------------------------------------------------------------- projection (forest F)
 
 type Hdr struct {
-	ID  int `json:"id"`
-	Sz  int `json:"sz"`
-	Cnt int `json:"cnt"`
-	Sum int `json:"sum"`
-	Fk  int `json:"fk"`
+	ID    int `json:"id"`
+	Sz    int `json:"sz"`
+	Cnt   int `json:"cnt"`
+	Sum   int `json:"sum"`
+	Fk    int `json:"fk"`
+	fkRaw uint64
 }
 
 type Elem struct {
@@ -186,40 +216,44 @@ type MapElem struct {
 }
 
 type MapEls struct {
-	T   string    `json:"t"` // "h" hkey elements, "l" list (no digests)
-	Lvl int       `json:"lvl"`
-	Sz  int       `json:"sz"`
-	Hk  []int     `json:"hk"`
-	El  []MapElem `json:"el"`
+	T     string    `json:"t"` // "h" hkey elements, "l" list (no digests)
+	Lvl   int       `json:"lvl"`
+	Sz    int       `json:"sz"`
+	Hk    []int     `json:"hk"`
+	El    []MapElem `json:"el"`
+	hkRaw []uint64
 }
 
 type Node struct {
-	K    string    `json:"k"` // "d" | "m" | "md" | "mm" | "missing"
-	ID   int       `json:"id"`
-	Sz   int       `json:"sz"`
-	Cnt  int       `json:"cnt"`
-	Nxt  int       `json:"nxt"`
-	Inl  bool      `json:"inl"`
-	Root bool      `json:"root"`
-	E    []Elem    `json:"e"`
-	H    []Hdr     `json:"h"`
-	C    []*Node   `json:"c"`
-	Fk   int       `json:"fk"`
-	Any  bool      `json:"any"`
-	Cg   bool      `json:"cg"`
-	Seed string    `json:"seed"`
-	Els  []*MapEls `json:"els"`
-	Ti   string    `json:"ti"`
+	K     string    `json:"k"` // "d" | "m" | "md" | "mm" | "missing"
+	ID    int       `json:"id"`
+	Sz    int       `json:"sz"`
+	Cnt   int       `json:"cnt"`
+	Nxt   int       `json:"nxt"`
+	Inl   bool      `json:"inl"`
+	Root  bool      `json:"root"`
+	E     []Elem    `json:"e"`
+	H     []Hdr     `json:"h"`
+	C     []*Node   `json:"c"`
+	Fk    int       `json:"fk"`
+	Any   bool      `json:"any"`
+	Cg    bool      `json:"cg"`
+	Seed  string    `json:"seed"`
+	Els   []*MapEls `json:"els"`
+	Ti    string    `json:"ti"`
+	fkRaw uint64
 }
 
 type projector struct {
 	w     *World
-	dig   map[uint64]int // digest compression (nil = keep raw values)
-	slabs map[int]bool   // canonical ids of standalone slabs reached
+	slabs map[int]bool // canonical ids of standalone slabs reached
+	raw   map[uint64]bool
+	nodes []*Node
+	els   []*MapEls
 }
 
 func (w *World) newProjector() *projector {
-	return &projector{w: w, slabs: map[int]bool{}}
+	return &projector{w: w, slabs: map[int]bool{}, raw: map[uint64]bool{}}
 }
 
 func tiString(t atree.TypeInfo) string {
@@ -230,26 +264,59 @@ func tiString(t atree.TypeInfo) string {
 		return fmt.Sprintf("S%d", x.Value())
 	case testutils.CompositeTypeInfo:
 		return "C" + x.Identifier()
+	case compTypeInfo:
+		return "C" + x.Identifier()
 	}
 	return fmt.Sprintf("%T", t)
 }
 
-func (p *projector) digest(d atree.Digest) int {
-	if p.dig == nil {
-		if uint64(d) > 1<<30 {
-			// raw digests do not fit TLC integers: the caller must install a compression table
-			return int(uint64(d) % (1 << 30))
+// Digests are 64-bit; TLC integers are 32-bit.  Raw digests are collected while projecting and mapped
+// afterwards: unchanged when all are small (table-driven digesters), else by rank (order and equality preserved,
+// 0 stays 0), which is all the specification uses.
+func (p *projector) finalize() {
+	big := false
+	var all []uint64
+	for d := range p.raw {
+		all = append(all, d)
+		if d >= 1<<30 {
+			big = true
 		}
-		return int(d)
 	}
-	return p.dig[uint64(d)]
+	conv := func(d uint64) int { return int(d) }
+	if big {
+		sort.Slice(all, func(i, j int) bool { return all[i] < all[j] })
+		rank := map[uint64]int{}
+		for i, d := range all {
+			rank[d] = i + 1
+		}
+		rank[0] = 0
+		conv = func(d uint64) int { return rank[d] }
+	}
+	for _, n := range p.nodes {
+		n.Fk = conv(n.fkRaw)
+		for i := range n.H {
+			n.H[i].Fk = conv(n.H[i].fkRaw)
+		}
+	}
+	for _, e := range p.els {
+		e.Hk = make([]int, len(e.hkRaw))
+		for i, d := range e.hkRaw {
+			e.Hk[i] = conv(d)
+		}
+	}
+}
+
+func (p *projector) note(d atree.Digest) uint64 {
+	p.raw[uint64(d)] = true
+	return uint64(d)
 }
 
 func (p *projector) nodeOfSlab(s atree.Slab) *Node {
 	info := atree.VerifDescribeSlab(s)
 	n := &Node{ID: p.w.cid(info.ID), Sz: int(info.Size), Cnt: int(info.Count), Nxt: p.w.cid(info.Next),
 		Inl: info.Inlined, Root: info.HasExtraData, E: []Elem{}, H: []Hdr{}, C: []*Node{}, Els: []*MapEls{},
-		Fk: p.digest(info.FirstKey), Any: info.AnySize, Cg: info.CollisionGroup, Ti: tiString(info.TypeInfo)}
+		fkRaw: p.note(info.FirstKey), Any: info.AnySize, Cg: info.CollisionGroup, Ti: tiString(info.TypeInfo)}
+	p.nodes = append(p.nodes, n)
 	if !info.Inlined {
 		p.slabs[n.ID] = true
 	}
@@ -275,7 +342,7 @@ func (p *projector) nodeOfSlab(s atree.Slab) *Node {
 		n.Cnt = int(info.MapCount)
 		n.Seed = strconv.FormatUint(info.Seed, 16)
 		for _, c := range info.Children {
-			n.H = append(n.H, Hdr{ID: p.w.cid(c.ID), Sz: int(c.Size), Fk: p.digest(c.FirstKey)})
+			n.H = append(n.H, Hdr{ID: p.w.cid(c.ID), Sz: int(c.Size), fkRaw: p.note(c.FirstKey)})
 			n.C = append(n.C, p.nodeOfID(c.ID))
 		}
 	default:
@@ -294,10 +361,11 @@ func (p *projector) nodeOfID(id atree.SlabID) *Node {
 
 func (p *projector) mapEls(e *atree.VerifElements) *MapEls {
 	r := &MapEls{T: "l", Lvl: int(e.Level), Sz: int(e.Size), Hk: []int{}, El: []MapElem{}}
+	p.els = append(p.els, r)
 	if e.HKey {
 		r.T = "h"
 		for _, d := range e.HKeys {
-			r.Hk = append(r.Hk, p.digest(d))
+			r.hkRaw = append(r.hkRaw, p.note(d))
 		}
 	}
 	for _, el := range e.Elems {
@@ -472,8 +540,9 @@ type RootObs struct {
 	N    int       `json:"n"`   // Count()
 	Ti   string    `json:"ti"`
 	Abs  []AbsElem `json:"abs"`
-	Kds  [][]int   `json:"kds"` // maps with a table digester: digest vector of every key, in iteration order
-	F    []*Node   `json:"F"`   // exactly one node
+	Fsum string    `json:"fsum"` // hash of the whole projected forest of this root with RAW digests (for "unchanged" relations)
+	Kds  [][]int   `json:"kds"`  // maps with a table digester: digest vector of every key, in iteration order
+	F    []*Node   `json:"F"`    // exactly one node
 }
 
 type StoreObs struct {
@@ -500,6 +569,7 @@ func (w *World) Observe() ([]RootObs, StoreObs) {
 		root := w.rootSlabOf(h)
 		n := p.nodeOfSlab(root)
 		ro.F = []*Node{n}
+		ro.Fsum = sumNode(n)
 		ro.Rid = n.ID
 		if h.Kind == "A" {
 			ro.N = int(h.Arr.Count())
@@ -518,6 +588,7 @@ func (w *World) Observe() ([]RootObs, StoreObs) {
 		}
 		roots = append(roots, ro)
 	}
+	p.finalize()
 	so := StoreObs{Calls: len(w.Ledger.Calls), Regs: len(w.Ledger.Regs), Deltas: int(w.St.Deltas()), Stored: []int{}, Reach: []int{}}
 	for _, id := range w.ViewIDs() {
 		so.Stored = append(so.Stored, w.cid(id))
@@ -534,30 +605,32 @@ func (w *World) Observe() ([]RootObs, StoreObs) {
 func (w *World) Reopen() Res {
 	w.St = newStorage(w.Ledger)
 	res := Res{Class: "ok", Seq: []int{}}
-	for _, name := range w.Roots {
-		h := w.H[name]
-		var id atree.SlabID
-		if h.Kind == "A" {
-			id = h.Arr.SlabID()
-			a, err := atree.NewArrayWithRootID(w.St, id)
+	if w.savedRoots == nil {
+		w.rememberRoots() // never committed: the caller only knows the identifiers it holds now
+	}
+	w.H = map[string]*Handle{}
+	w.Roots = nil
+	for _, sr := range w.savedRoots {
+		h := &Handle{Name: sr.Name, Kind: sr.Kind, Dig: sr.Dig}
+		if sr.Kind == "A" {
+			a, err := atree.NewArrayWithRootID(w.St, sr.ID)
 			if err != nil {
 				return resOf(err)
 			}
 			h.Arr = a
 		} else {
-			id = h.Map.SlabID()
-			m, err := atree.NewMapWithRootID(w.St, id, h.Dig)
+			var db atree.DigesterBuilder = atree.NewDefaultDigesterBuilder()
+			if sr.Dig != nil {
+				db = sr.Dig
+			}
+			m, err := atree.NewMapWithRootID(w.St, sr.ID, db)
 			if err != nil {
 				return resOf(err)
 			}
 			h.Map = m
 		}
-	}
-	// every non-root handle is retired (handle-tree rule iv)
-	for name, h := range w.H {
-		if h.Parent != "" {
-			delete(w.H, name)
-		}
+		w.H[sr.Name] = h
+		w.Roots = append(w.Roots, sr.Name)
 	}
 	return res
 }
@@ -577,7 +650,11 @@ func (w *World) ColdObserve() []RootObs {
 			}
 			nh.Arr = a
 		} else {
-			m, err := atree.NewMapWithRootID(cw.St, h.Map.SlabID(), h.Dig)
+			var db atree.DigesterBuilder = atree.NewDefaultDigesterBuilder()
+			if h.Dig != nil {
+				db = h.Dig
+			}
+			m, err := atree.NewMapWithRootID(cw.St, h.Map.SlabID(), db)
 			if err != nil {
 				return []RootObs{{Name: name, Kind: "error:" + classify(err).Class, Abs: []AbsElem{}, Kds: [][]int{}, F: []*Node{}}}
 			}
@@ -597,4 +674,52 @@ func (w *World) RegObs() []RegObs {
 		out = append(out, RegObs{Key: id.String(), ID: w.cid(id), Sum: shortSum(b), Len: len(b)})
 	}
 	return out
+}
+
+// sumNode hashes a projected tree including raw (uncompressed) digests.
+func sumNode(n *Node) string {
+	h := sha256.New()
+	var walkEls func(e *MapEls)
+	var walk func(n *Node)
+	walkElem := func(e Elem) {
+		fmt.Fprintf(h, "e|%s|%d|%d|%d|%d|%d;", e.C, e.W, e.Sz, e.V, e.Vsz, e.Ref)
+		for _, c := range e.Ch {
+			walk(c)
+		}
+	}
+	walkEls = func(e *MapEls) {
+		fmt.Fprintf(h, "E|%s|%d|%d|%v;", e.T, e.Lvl, e.Sz, e.hkRaw)
+		for _, x := range e.El {
+			fmt.Fprintf(h, "x|%s|%d;", x.T, x.Sz)
+			for _, k := range x.K {
+				walkElem(k)
+			}
+			for _, v := range x.V {
+				walkElem(v)
+			}
+			for _, g := range x.Els {
+				walkEls(g)
+			}
+			for _, g := range x.X {
+				walk(g)
+			}
+		}
+	}
+	walk = func(n *Node) {
+		fmt.Fprintf(h, "n|%s|%d|%d|%d|%d|%t|%t|%d|%t|%t|%s|%s;", n.K, n.ID, n.Sz, n.Cnt, n.Nxt, n.Inl, n.Root, n.fkRaw, n.Any, n.Cg, n.Seed, n.Ti)
+		for _, e := range n.E {
+			walkElem(e)
+		}
+		for _, hd := range n.H {
+			fmt.Fprintf(h, "h|%d|%d|%d|%d|%d;", hd.ID, hd.Sz, hd.Cnt, hd.Sum, hd.fkRaw)
+		}
+		for _, e := range n.Els {
+			walkEls(e)
+		}
+		for _, c := range n.C {
+			walk(c)
+		}
+	}
+	walk(n)
+	return hex.EncodeToString(h.Sum(nil)[:10])
 }
